@@ -26,17 +26,4 @@ theorem codes_complete :
   · decide
   · intro c; cases c <;> decide
 
-/-- `gfapy.invert` on orientations and end types. -/
-theorem invert_table :
-    Gen.invertTable = [('+', '-'), ('-', '+'), ('L', 'R'), ('R', 'L')] := by decide
-
-def endChar : EndT → Char | .L => 'L' | .R => 'R'
-
-/-- `from_end` / `to_end` of an L line for the four orientation pairs. -/
-theorem link_ends : ∀ fo too : Orient,
-    (fo.toChar, too.toChar,
-      endChar (Link.fromEnd ⟨"A", fo, "B", too, .star⟩).2,
-      endChar (Link.toEnd ⟨"A", fo, "B", too, .star⟩).2) ∈ Gen.linkEndTable := by
-  intro fo too; cases fo <;> cases too <;> decide
-
 end Gfa.Bridge.Cigar
